@@ -321,13 +321,18 @@ def check_schedule(w, rep):
     c20.rule_estimator(cx, {})
     n = 0
     for o in scratch.obs:
+        if o.rule == "C20.est-rate-limit" and isinstance(o.fact, dict) and o.fact.get("starves"):
+            n += 1
+            rep.fail("C12.schedule", o.instance + " can run: its rate gate opens once the minimum period has elapsed since the last applied correction", o.fact["starves"],
+                     where=tuple(o.fact.get("starves_where") or (EST_REL, 1)))
+            continue
         if o.rule != "C20.est-rate-limit" or not o.instance.endswith("is rate limited"):
             continue
         inst = o.instance.replace("is rate limited", "can run: its rate gate opens once the minimum period has elapsed since the last applied correction")
         n += 1
         if o.status == "ok":
             rep.ok("C12.schedule", inst, fact=o.fact)
-        elif o.status == "fail" and ("never" in o.msg or "SHORTER" in o.msg):
+        elif o.status == "fail" and "SHORTER" in o.msg:
             rep.fail("C12.schedule", inst, o.msg, where=(o.file, o.line))
         elif o.status == "incomplete":
             rep.incomplete("C12.schedule", inst, o.msg, where=(o.file, o.line))
